@@ -92,9 +92,32 @@ class ReaderModel:
         for n in ast.walk(fn):
             if isinstance(n, ast.If) and any(isinstance(x, ast.Continue) for x in n.body):
                 self.skip_src = src(n.test)
+        self.skip_problem = None
         if self.skip_src not in ("line[0] == '#' or line.strip() == ''", "line.strip() == '' or line[0] == '#'",
                                  "line.startswith('#') or line.strip() == ''", "line[0] == '#' or not line.strip()"):
-            raise AnalysisError('%s: comment/blank rule of _parse() not recognised: %r' % (NUMDB, self.skip_src))
+            # another spelling: evaluated on the kinds of line there are; a line is skipped iff it starts with '#' in column 0 or is blank
+            from .minieval import ev, Undecidable, Unsupported
+            test = next(n.test for n in ast.walk(fn) if isinstance(n, ast.If) and any(isinstance(x, ast.Continue) for x in n.body) and src(n.test) == self.skip_src) \
+                if self.skip_src else None
+            var = None
+            for n in ast.walk(fn):
+                if isinstance(n, ast.For) and isinstance(n.target, ast.Name) and test is not None and any(x is test for x in ast.walk(n)):
+                    var = n.target.id
+            if test is None or var is None:
+                raise AnalysisError('%s: comment/blank rule of _parse() not recognised: %r' % (NUMDB, self.skip_src))
+            probes = [('# comment\n', True), ('#\n', True), ('\n', True), ('   \n', True), ('\t\n', True), ('', True),
+                      ('12 a="b"\n', False), (' 12 a="b"\n', False), (' #1 a="b"\n', False), ('  # a="b"\n', False), ('#1', True), ('1#', False)]
+            for text, want in probes:
+                try:
+                    got = bool(ev(test, {var: text}))
+                except (Undecidable, Unsupported) as e:
+                    raise AnalysisError('%s: comment/blank rule of _parse() cannot be evaluated: %r (%s)' % (NUMDB, self.skip_src, e))
+                if got != want:
+                    self.skip_problem = (getattr(test, 'lineno', 0), self.skip_src,
+                                         'the line %r is %s by `%s`: lines are comments only when they start with # in the first column, blank lines are '
+                                         'skipped, every other line is an entry (an indented entry whose range starts with # would be lost together with the '
+                                         'place of the lines nested under it)' % (text, 'skipped' if got else 'not skipped', self.skip_src))
+                    break
 
     def subject(self, line):
         """What the reader actually hands to its line pattern (normally the line itself)."""
